@@ -82,6 +82,25 @@ func checkDescription(c ax.Case) *vlib.Failure {
 	if strip(rowA) != c.R[first.AS:last.AE] || strip(rowB) != c.Q[first.BS:last.BE] {
 		return vlib.Failf("format-content", "%s: Format rows %q / %q do not reduce to the aligned subsequences %q / %q", desc, rowA, rowB, c.R[first.AS:last.AE], c.Q[first.BS:last.BE])
 	}
+	// the same for quality-carrying sequences
+	rq, qq := cq.Seqs()
+	fq := align.Format(rq.(seq.Slicer), qq.(seq.Slicer), raw, gap)
+	qa, qb := fq[0].(alphabet.QLetters), fq[1].(alphabet.QLetters)
+	if len(qa) != len(qb) {
+		return vlib.Failf("format-row-lengths", "%s: Format rows of quality sequences have lengths %d and %d", desc, len(qa), len(qb))
+	}
+	stripQ := func(l alphabet.QLetters) string {
+		var b []byte
+		for _, ql := range l {
+			if ql.L != gap {
+				b = append(b, byte(ql.L))
+			}
+		}
+		return string(b)
+	}
+	if stripQ(qa) != c.R[first.AS:last.AE] || stripQ(qb) != c.Q[first.BS:last.BE] || len(qa) != len(rowA) {
+		return vlib.Failf("format-content", "%s: Format rows of quality sequences do not reduce to the aligned subsequences (lengths %d vs %d for plain sequences)", desc, len(qa), len(rowA))
+	}
 	return nil
 }
 
